@@ -5,6 +5,11 @@ import math
 from harness import enc
 
 PROP = "C13"
+# the binary64 theorems (Properties/C13.v, module Binary64) use the standard library's real numbers
+AXIOM_WHITELIST = ["sig_not_dec", "sig_forall_dec", "functional_extensionality_dep", "classic"]
+TRUSTED = ["C13_binary64_within_half_unit / C13_rounded_arithmetic_within_half_unit: Coq standard-library axioms of the real numbers "
+           "(ClassicalDedekindReals.sig_not_dec, sig_forall_dec), FunctionalExtensionality.functional_extensionality_dep and "
+           "Classical_Prop.classic, through Reals and Flocq 4; IEEE-754 binary64 arithmetic modelled by Flocq's round on the reals"]
 CHECK_MODULE = "Check.C13"
 COQ_IMPORTS = "Model.Precision"
 COQ_PRELUDE = "From Coq Require Import PrimFloat."
